@@ -458,6 +458,7 @@ class SecopClient(ProxyClient):
                     continue
                 self.log.debug('RX: %r', reply)
                 noactivity = 0
+                action = None
                 try:
                     action, ident, data = decode_msg(reply)
                     if ident == '.':
@@ -491,7 +492,10 @@ class SecopClient(ProxyClient):
                         self.callback(None, 'handleError',  e)
                     except Exception:
                         pass
-                    continue
+                    if action is None or action in (EVENTREPLY, ERRORPREFIX + EVENTREPLY):
+                        continue
+                    # a reply, which could not be put into the cache (e.g. a read request on
+                    # a command): the waiting caller must be released nevertheless
                 try:
                     key = action, ident
                     entry = self.active_requests.pop(key)
